@@ -12,9 +12,11 @@ import (
 	"github.com/btcsuite/btcd/btcutil"
 	"github.com/btcsuite/btcd/chaincfg/chainhash"
 	"github.com/btcsuite/btcd/wire"
+	"github.com/btcsuite/btcwallet/chain"
 	"github.com/btcsuite/btcwallet/waddrmgr"
 	"github.com/btcsuite/btcwallet/wallet"
 	"github.com/btcsuite/btcwallet/walletdb"
+	"github.com/btcsuite/btcwallet/wtxmgr"
 
 	"verifharness/core"
 )
@@ -29,6 +31,9 @@ import (
 //   rrecover w=<W> locked=<0|1> failat=<n>                 create from seed, sync (n-th FilterBlocks call fails once)
 //   rrestart w=<W> failat=<n>                              stop, reopen, sync (recovery resumes above the wallet's tip)
 //   rstate
+//   rlease op=<txid>.<idx> | rrelease op=<txid>.<idx>      Wallet.LeaseOutput (1 h) / ReleaseOutput on a recovered output
+//   rmempool tx=<id>:<in>+<in>:<out>                       an unmined relevant tx (no wallet outputs) reaches the wallet;
+//                                                          a later `rblk txs=..;m<id>` mines it
 // (c) locateBirthdayBlock through the start-up path of a fresh wallet
 //   bday best=<n> ts=<t1,...,tn> b=<birthday> delta=7200 g=<genesis time>
 
@@ -130,6 +135,9 @@ type recRunner struct {
 	hypOK   bool  // the look-ahead hypothesis held for every block scanned so far
 	tainted bool  // an injected FilterBlocks failure fired (in-process retry): the rest of the case is not compared
 	paidMax map[[2]int]int
+	leased  map[[2]int]bool // outputs currently leased through rlease
+	leases  int // number of rlease ops so far (context tag of the oracle keys)
+	mempool int // number of rmempool ops so far
 }
 
 func (r *recRunner) Close() {
@@ -254,7 +262,50 @@ func (r *recRunner) Exec(op string) (string, string) {
 		}
 		r.txs, r.order, r.nextBlk, r.scanned, r.hypOK, r.tainted = map[int]*rTx{}, nil, 1, 0, true, false
 		r.paidMax = map[[2]int]int{}
+		r.leases, r.mempool, r.leased = 0, 0, map[[2]int]bool{}
 		return "ok", ""
+	case "rlease", "rrelease":
+		if r.env == nil || r.env.w == nil {
+			return "bad-op", ""
+		}
+		q := strings.Split(kv["op"], ".")
+		if len(q) != 2 || r.txs[atoi(q[0])] == nil {
+			return "bad-op", ""
+		}
+		op := wire.OutPoint{Hash: r.txs[atoi(q[0])].msg.TxHash(), Index: uint32(atoi(q[1]))}
+		id := wtxmgr.LockID{0x16}
+		if kind == "rlease" {
+			if _, err := r.env.w.LeaseOutput(id, op, time.Hour); err != nil {
+				return "err lease", ""
+			}
+			r.leases++
+			r.leased[[2]int{atoi(q[0]), atoi(q[1])}] = true
+			return "ok", ""
+		}
+		if err := r.env.w.ReleaseOutput(id, op); err != nil {
+			return "err release", ""
+		}
+		delete(r.leased, [2]int{atoi(q[0]), atoi(q[1])})
+		return r.state(), r.oracle(r.ctx("release"))
+	case "rmempool":
+		if r.env == nil || r.env.w == nil || !r.env.running {
+			return "bad-op", ""
+		}
+		t, err := r.parseTx(kv["tx"])
+		if err != nil {
+			return "bad-op", ""
+		}
+		for _, o := range t.outs {
+			if o.scope != 0 {
+				return "bad-op", "" // unmined credits are outside this engine's model
+			}
+		}
+		rec, _ := wtxmgr.NewTxRecordFromMsgTx(t.msg, time.Unix(1500000000, 0))
+		if !r.env.fc.deliver(chain.RelevantTx{TxRecord: rec}) {
+			return "deliver-timeout", ""
+		}
+		r.mempool++
+		return r.state(), ""
 	case "rblk":
 		if r.env == nil {
 			return "bad-op", ""
@@ -263,6 +314,15 @@ func (r *recRunner) Exec(op string) (string, string) {
 		var added []*rTx
 		for _, ts := range strings.Split(kv["txs"], ";") {
 			if ts == "" {
+				continue
+			}
+			if strings.HasPrefix(ts, "m") { // a transaction the wallet already holds unmined
+				t := r.txs[atoi(ts[1:])]
+				if t == nil || t.h != 0 {
+					return "bad-op", ""
+				}
+				added = append(added, t)
+				msgs = append(msgs, t.msg)
 				continue
 			}
 			t, err := r.parseTx(ts)
@@ -306,7 +366,7 @@ func (r *recRunner) Exec(op string) (string, string) {
 		if err := r.env.reopen(r.w); err != nil {
 			return "err open", ""
 		}
-		return r.syncAndReport(kv, "resume")
+		return r.syncAndReport(kv, r.ctx("resume"))
 	case "rstate":
 		if r.env == nil || r.env.w == nil {
 			return "bad-op", ""
@@ -420,7 +480,24 @@ func (r *recRunner) syncAndReport(kv map[string]string, ctx string) (string, str
 		r.tainted = true
 		return "retried-after-failure", r.oracle("retry-after-failed-batch")
 	}
-	return r.state(), r.oracle(ctx)
+	// hyp: the oracle's own evaluation of the look-ahead hypothesis; the Lean driver evaluates the hypotheses of
+	// theorem C16_complete (checkWF && checkLA) on the same chain and the two must agree
+	hyp := 0
+	if r.hypOK {
+		hyp = 1
+	}
+	return fmt.Sprintf("%s hyp=%d", r.state(), hyp), r.oracle(ctx)
+}
+
+// ctx tags the oracle keys of a resumed recovery with what happened to recovered outputs before it.
+func (r *recRunner) ctx(base string) string {
+	if r.leases > 0 {
+		base += ".leased-output"
+	}
+	if r.mempool > 0 {
+		base += ".unmined-spend"
+	}
+	return base
 }
 
 func (r *recRunner) hasScope(s int) bool {
@@ -555,6 +632,15 @@ func (r *recRunner) oracle(ctx string) string {
 		}
 		return "C16 key=retry-after-failed-batch: recovery retried in-process after a failed batch: " + first
 	}
+	if (r.leases > 0 || r.mempool > 0) && v != "" {
+		// one stable key for every consequence of Resurrect being fed UnspentOutputs (wallet.go:732): leased outputs
+		// and outputs spent by an unmined transaction are not re-watched by a resumed recovery
+		first := strings.SplitN(v, "; ", 2)[0]
+		if i := strings.Index(first, ": "); i >= 0 {
+			first = first[i+2:]
+		}
+		return "C16 key=resume-unwatched-output: resumed recovery does not watch a leased output / an output spent by an unmined transaction (" + ctx + "): " + first
+	}
 	return v
 }
 
@@ -611,6 +697,20 @@ func (r *recRunner) oracle1(ctx string) string {
 			v = append(v, fmt.Sprintf("C16 key=missing-tx.%s: transaction %d pays to or spends from the wallet but is not recorded", ctx, id))
 			break
 		}
+	}
+	// CalculateBalance / UnspentOutputs legitimately leave out leased outputs and outputs spent by an unmined
+	// transaction the wallet holds
+	for _, t := range r.order {
+		if t.h == 0 {
+			for _, in := range t.inRf {
+				if _, ok := own[in]; ok {
+					spent[in] = true
+				}
+			}
+		}
+	}
+	for op := range r.leased {
+		spent[op] = true
 	}
 	var want int64
 	wantU := map[[2]int]int64{}
@@ -794,6 +894,14 @@ func (recEngine) Generate(rng *rand.Rand, tier string) []core.Case {
 			cases = append(cases, genChain(rng, gt, w, 8+rng.Intn(18), false, c))
 		}
 	}
+	// (b') a recovered output is leased / spent by an unmined transaction before the recovery is resumed
+	nHidden := 8
+	if thorough {
+		nHidden = 80
+	}
+	for c := 0; c < nHidden; c++ {
+		cases = append(cases, genHidden(rng, gt, c))
+	}
 	// batch boundary: > 2000 blocks, payments on both sides of the boundary, failure in the second batch
 	nLong := 2
 	if thorough {
@@ -854,6 +962,52 @@ func (recEngine) Generate(rng *rand.Rand, tier string) []core.Case {
 		cases = append(cases, core.Case{Ops: ops, Tags: []string{"birthday"}})
 	}
 	return cases
+}
+
+// genHidden: block 1 pays a wallet address, recovery finds the output; then the output is leased or an unmined
+// transaction spending it reaches the wallet (or neither: control), the wallet is stopped, the next block spends the
+// output without paying the wallet (or pays the wallet elsewhere: control), and the recovery is resumed.
+func genHidden(rng *rand.Rand, gt int64, c int) core.Case {
+	w := 2 + rng.Intn(3)
+	sc := []int{44, 49, 84, 86}[rng.Intn(4)]
+	br, idx := rng.Intn(2), rng.Intn(w)
+	amt := 20000 + rng.Intn(50000)
+	ops := []string{fmt.Sprintf("rinit seed=%d scopes=44,49,84,86 batch=2000", 1+c%3)}
+	h := 1
+	blk := func(txs string) {
+		ops = append(ops, fmt.Sprintf("rblk t=%d txs=%s", gt+int64(h)*600, txs))
+		h++
+	}
+	blk(fmt.Sprintf("1:e:%d.%d.%d.%d+x.1234", sc, br, idx, amt))
+	for i := 0; i < rng.Intn(3); i++ {
+		blk("")
+	}
+	ops = append(ops, fmt.Sprintf("rrecover w=%d locked=%d failat=0", w, rng.Intn(2)))
+	variant := c % 4
+	tags := []string{"full-loop", "resumed", []string{"leased-output-spent", "unmined-spend-mined", "leased-output-kept", "plain-spend"}[variant]}
+	spend := fmt.Sprintf("2:1.0:x.%d", amt-1000)
+	switch variant {
+	case 0: // leased, then spent on chain while the wallet is down
+		ops = append(ops, "rlease op=1.0")
+		blk(spend)
+	case 1: // spent by an unmined transaction the wallet knows, mined while the wallet is down
+		ops = append(ops, "rmempool tx="+spend)
+		blk("m2")
+	case 2: // control: leased, not spent; another payment arrives
+		ops = append(ops, "rlease op=1.0")
+		blk(fmt.Sprintf("2:e:%d.%d.%d.%d", sc, br, idx+1, amt/2))
+	default: // control: spent, nothing hidden
+		blk(spend)
+	}
+	for i := 0; i < rng.Intn(2); i++ {
+		blk("")
+	}
+	ops = append(ops, fmt.Sprintf("rrestart w=%d failat=0", w))
+	if variant == 0 || variant == 2 {
+		ops = append(ops, "rrelease op=1.0")
+	}
+	ops = append(ops, "rstate")
+	return core.Case{Ops: ops, Tags: tags}
 }
 
 // genChain builds one full-loop case: a chain paying chosen (scope, branch, index) patterns.
